@@ -96,6 +96,48 @@ func c10Observe(db *dyn.DB, col string, a, b, d val.Val) c10obs {
 	return o
 }
 
+// c10TwoSteps changes column col of a row from a to mid and then to b with two update operations accumulated in one
+// ModelUpdates, and returns the modify entry of the column (nil when there is none).
+func c10TwoSteps(db *dyn.DB, col string, a, mid, b val.Val) (*val.Val, string) {
+	const T = "T"
+	uuid := gen.UUIDn(0)
+	c := db.Spec.Table(T).Col(col)
+	cur := db.Make(T, uuid, map[string]val.Val{col: a})
+	mu := updates.ModelUpdates{}
+	for _, target := range []val.Val{mid, b} {
+		op := ovsdb.Operation{Op: ovsdb.OperationUpdate, Table: T, Row: db.OvsRow(T, map[string]val.Val{col: target})}
+		if err := mu.AddOperation(db.Model, T, uuid, cur, &op); err != nil {
+			return nil, err.Error()
+		}
+		next := model.Model(nil)
+		_ = mu.ForEachModelUpdate(T, func(u string, old, new model.Model) error {
+			next = new
+			return nil
+		})
+		if next == nil {
+			// the accumulated update vanished: the row is back at a
+			next = db.Make(T, uuid, map[string]val.Val{col: a})
+		}
+		cur = model.Clone(next)
+	}
+	var out *val.Val
+	errs := ""
+	_ = mu.ForEachRowUpdate(T, func(u string, ru ovsdb.RowUpdate2) error {
+		if ru.Modify != nil {
+			if x, ok := (*ru.Modify)[col]; ok {
+				v, err := c.FromOvs(x)
+				if err != nil {
+					errs = "modify: " + err.Error()
+				} else {
+					out = &v
+				}
+			}
+		}
+		return nil
+	})
+	return out, errs
+}
+
 func driveC10(o opts) error {
 	db, err := c10Schema().Build()
 	if err != nil {
@@ -130,6 +172,19 @@ func driveC10(o opts) error {
 			ob2 := c10Observe(db, col, a, b, *ob.diff)
 			if !ob2.new2.Equal(b) {
 				oracle = "applying the computed difference to a does not give b"
+			}
+		}
+		if oracle == "" {
+			// the same change made in two steps of one transaction (a -> d -> b): the modify row is then a merged
+			// difference; it must still be empty iff a = b and turn a into b
+			if via, err := c10TwoSteps(db, col, a, d, b); err != "" {
+				oracle = "two updates in one transaction: " + err
+			} else if (via == nil) != a.Equal(b) {
+				oracle = fmt.Sprintf("two updates in one transaction (a -> %s -> b): the modify row is empty although a != b (or non-empty although a == b)", d.Key())
+			} else if via != nil {
+				if ob3 := c10Observe(db, col, a, b, *via); !ob3.new2.Equal(b) {
+					oracle = fmt.Sprintf("two updates in one transaction (a -> %s -> b): applying the modify row %s to a does not give b", d.Key(), via.Key())
+				}
 			}
 		}
 		var diffJ interface{}
